@@ -48,6 +48,10 @@ type Model struct {
 	LoadSeconds float64
 	calleeCache map[*ssa.Function][]callEdge
 	lm          *lockModel
+	hoCache      map[*ssa.Function]map[int]bool
+	helperHeld   map[*ssa.Function]lockset
+	wrapperCache map[*ssa.Function]wrapperInfo
+	docWriteCache []*docWrite
 }
 
 // Load type-checks and builds the model. Any type error fails the load.
@@ -96,6 +100,9 @@ func Load(repoDir string, useCHA bool) (*Model, error) {
 		strMemo: map[strKey][]string{},
 		Stats:   map[string]int{},
 		calleeCache: map[*ssa.Function][]callEdge{},
+		hoCache:      map[*ssa.Function]map[int]bool{},
+		helperHeld:   map[*ssa.Function]lockset{},
+		wrapperCache: map[*ssa.Function]wrapperInfo{},
 	}
 	if m.SSA == nil {
 		return nil, fmt.Errorf("no SSA package for root")
@@ -164,6 +171,36 @@ func (m *Model) declName(fn *ssa.Function) string {
 	for root.Parent() != nil {
 		root = root.Parent()
 		depth++
+	}
+	// functions that play a fixed role are named by that role, so that obligation keys (and
+	// the known-findings file that matches them) survive a rename of an unexported helper
+	if role := m.roleOf(root); role != "" {
+		if depth > 0 {
+			return role + "$closure"
+		}
+		return role
+	}
+	// an unexported helper whose only caller plays a role is named after that role (extracting
+	// part of an anchor function into a helper must not rename the obligations about that part)
+	if root.Object() != nil && !root.Object().Exported() && root.Signature.Recv() != nil || root.Object() != nil && !root.Object().Exported() {
+		if node := m.CG.Nodes[root]; node != nil {
+			var callers []*ssa.Function
+			seen := map[*ssa.Function]bool{}
+			for _, e := range node.In {
+				if e.Site != nil && e.Site.Common().StaticCallee() == root && !seen[e.Caller.Func] {
+					seen[e.Caller.Func] = true
+					callers = append(callers, e.Caller.Func)
+				}
+			}
+			if len(callers) == 1 {
+				if role := m.roleOf(rootOf(callers[0])); role != "" {
+					if depth > 0 {
+						return role + "$closure"
+					}
+					return role
+				}
+			}
+		}
 	}
 	name := root.String()
 	if o := root.Origin(); o != nil {
@@ -314,4 +351,34 @@ func (m *Model) loadSchema() error {
 	}
 	m.Schema = sc
 	return nil
+}
+
+// roleOf names the anchor functions by what they do.
+func (m *Model) roleOf(fn *ssa.Function) string {
+	a := &m.A
+	switch fn {
+	case nil:
+		return ""
+	case a.TxnRunner:
+		return "<txn-runner>"
+	case a.Allocator:
+		return "<cas-allocator>"
+	case a.PostFn:
+		return "<post-event>"
+	case a.FanoutFn:
+		return "<fan-out>"
+	case a.Converter:
+		return "<event-converter>"
+	case a.ShutdownFn:
+		return "<shutdown-routine>"
+	case a.CloneFn:
+		return "<handle-copy>"
+	case a.ClockNow:
+		return "<clock-now>"
+	case a.AbsExpiry:
+		return "<offset-to-absolute>"
+	case a.WithMetaFn:
+		return "<with-meta-writer>"
+	}
+	return ""
 }
